@@ -2008,7 +2008,6 @@ func (c *Ctx) sourceIdentity(tag string) {
 	c.R.Check(okPos, "parser/lexer.lexer.Lex", tag+" lexing starts at the zero position", lx.Pos(), "l.Pos = pos.Pos{}", "the cursor is not reset to the zero position at the start of Lex")
 }
 
-
 // sqlConnectives (SQL-7): the boolean structure of the output is the structure of the criteria tree because the only code
 // that writes a connective is the code compile() knows how to parenthesise. The constants AND / OR / NOT (and string
 // literals spelling them as words) occur only in the definitions of the functions listed in logicalFunPrecTbl, as a
